@@ -288,7 +288,7 @@ func init() {
 		Cases: func(seed uint64, tier string) []Case {
 			n := 40
 			if !quick(tier) {
-				n = 300
+				n = 150
 			}
 			var cs []Case
 			for i := 0; i < n; i++ {
